@@ -48,6 +48,7 @@ __all__ = [
 
 # stdlib imports
 import logging
+import os
 import datetime
 import http.cookiejar
 import uuid
@@ -538,8 +539,10 @@ class OFXClient:
 
             # Cache the updated PROFRS sent by the server
             response.seek(0)
-            with open(persistpath, "wb") as f:
+            tmppath = persistpath.with_name(f"{persistpath.name}.{self.uuid}.tmp")
+            with open(tmppath, "wb") as f:
                 f.write(response.read())
+            os.replace(tmppath, persistpath)
 
         # Rewind PROFRS so it can be returned cleanly after having been parsed.
         response.seek(0)
